@@ -40,7 +40,14 @@ func ParseInput(r *rng.Rand, n *spec.Node, o InOpts) any {
 			key := f.DataKey("")
 			if r.Intn(100) < o.AbsentPct/2 {
 				if o.Decoys && r.Bool() {
+					// keys that only look like the wanted key (other case, suffix): they must be ignored
 					m[strings.ToUpper(key)+"_"] = "decoy"
+					if up := strings.ToUpper(key); up != key {
+						m[up] = ParseInput(r, f.Node, InOpts{ValidPct: 50, WrongPct: 20})
+					}
+					if ti := strings.ToUpper(key[:1]) + strings.ToLower(key[1:]); ti != key && r.Bool() {
+						m[ti] = ParseInput(r, f.Node, InOpts{ValidPct: 50, WrongPct: 20})
+					}
 				}
 				continue // missing key
 			}
